@@ -96,6 +96,28 @@ claim("C14",
       "Trusted: python ast; documented parents taken from BlockNode's docstring.",
       "DESIGN.md §4 C14")
 
+claim("C09",
+      "parser/unparser sibling analysis over ast (fields written by the recursive-descent parser vs fields read by "
+      "gen_decl_work / gen_arg_as_lang, emission order, node-kind visitor coverage, precedence table vs C++, canonical "
+      "type table vs type table)",
+      "Decides the parser/unparser contract on the current source: nothing the parser records about a declaration is "
+      "dropped by the re-parsable renderer or (for type-affecting parts) by the prototype renderer, both renderers emit "
+      "the parts in the same order, every node the parser can create can be printed, operator precedence and "
+      "associativity follow C++, and canonical type spellings resolve. Agreement with a real C++ compiler over all "
+      "declarator shapes is not decided.",
+      "Trusted: python ast; C++ operator precedence table in the checker.",
+      "DESIGN.md §4 C09")
+claim("C11",
+      "twin-computation analysis of EnumNode.__init__ over ast plus grammar analysis of the expression parser "
+      "(OPINFO_MAP precedence vs the textual successor template, frozen operator-semantics table, identifier rewrite "
+      "table completeness, emitter key agreement)",
+      "Decides that the C and Fortran enumerator values are produced by identical computations up to the member-name "
+      "key, that the implicit successor is previous+1 with correct restarts, that `base+incr` is value-preserving for "
+      "every operator the grammar accepts, that accepted operators mean the same in C and Fortran, and that the "
+      "emitters print exactly those values. The numbers a C++ compiler assigns are not computed.",
+      "Trusted: python ast; table of operators with identical C/Fortran integer semantics (+ - * /).",
+      "DESIGN.md §4 C11")
+
 PENDING = "check not built yet in this session (fail-closed: not claimed until its rules run clean)"
-for _p in ["C01","C02","C03","C06","C08","C09","C10","C11","C18"]:
+for _p in ["C01","C02","C03","C06","C08","C10","C18"]:
     na(_p, PENDING)
